@@ -325,11 +325,11 @@ class CInference(Inference):
         minimal correction subsets, which determines entailment decisions.
         """
         logger.debug("translate called")
+        # one impact variable per conditional, named by the conditional's key (the
+        # minimal correction subsets in vMin/fMin refer to conditionals by key)
         eta = {
             i: Symbol(f"eta_{i}", INT)
-            for i, _ in enumerate(
-                self.epistemic_state["belief_base"].conditionals, start=1
-            )
+            for i in self.epistemic_state["belief_base"].conditionals
         }
         # defeat= = checkTautologies(self.epistemic_state['belief_base'].conditionals)
         # if not defeat: return False
@@ -588,7 +588,8 @@ class CInference(Inference):
 
         vSum = makeSummation({0: vMin})
         fSum = makeSummation({0: fMin})
-        mv, mf = freshVars(0)
+        # named apart from the variables of the base conditionals (a base may use key 0)
+        mv, mf = freshVars("query")
         vM = minima_encoding(mv, vSum[0])
         fM = minima_encoding(mf, fSum[0])
         # print(f"vM {vM}")
